@@ -71,6 +71,7 @@ func c16live(lifetimeMS uint32, dur time.Duration) error {
 	stop := make(chan struct{})
 	go autoRespond(p, stop)
 	defer close(stop)
+	stallReset()
 	var mu sync.Mutex
 	total, failed := 0, 0
 	var errs []string
@@ -102,6 +103,6 @@ func c16live(lifetimeMS uint32, dur time.Duration) error {
 		}
 	}
 	emit(map[string]interface{}{"kind": "live", "lifetime_ms": lifetimeMS, "duration_ms": float64(dur.Milliseconds()), "opn_at_ms": opn,
-		"requests": total, "failed": failed, "errors": errs, "server_errors": p.Srv.Errs()})
+		"requests": total, "failed": failed, "errors": errs, "server_errors": p.Srv.Errs(), "stall_ms": stallMS()})
 	return nil
 }
